@@ -514,6 +514,25 @@ def finalise(run, T):
     run.log(k="final", t=T, **out)
 
 
+def report_mid(run, Tm):
+    """interim occupancy report at tick Tm (before the events of that instant)"""
+    Q = run.Q
+    out = []
+    for j, e in enumerate(run.edges):
+        rec = {"err": "", "avg": -1}
+        try:
+            for name in ("update_final_buffer_avg_content", "update_final_fleet_avg_content", "update_final_conveyor_avg_content"):
+                if hasattr(e, name):
+                    getattr(e, name)(Tm / float(Q))
+            for k, v in e.stats.items():
+                if k.startswith("time_averaged"):
+                    rec["avg"] = v
+        except Exception as ex:
+            rec["err"] = type(ex).__name__
+        out.append(rec)
+    run.log(k="mid", t=Tm, edges=out)
+
+
 def run_config(cfg, max_events_per_instant=5000):
     """Build and run one configuration.  Returns the trace dict {"cfg":..., "ev":[...], "outcome":...}."""
     global _RUN
@@ -533,6 +552,11 @@ def run_config(cfg, max_events_per_instant=5000):
                 return {"cfg": cfg, "ev": run.ev, "outcome": "rejected_at_build", "err": "%s: %s" % (type(ex).__name__, ex)}
             Tt = T / float(Q)
             last_t = None
+            # an interim report of the edges' time-averaged occupancy half way (periodic reporting: the figures must be
+            # exact then, and exact again at the end)
+            Tm = int(T) // 2
+            if Tm > 0 and not isinstance(T, float):
+                env.urgent(lambda: report_mid(run, Tm), Tm / float(Q))
             while True:
                 nxt = env.peek()
                 if last_t is not None and nxt > last_t:
